@@ -17,7 +17,7 @@ Two kinds of case, both executed on the real python-control code in-process:
   of the code as it exists, ``c19 nlp code``, is reported as a statistic).
 
 step ::= ["new", slot, kind, spec]            construct an object into a named slot
-       | ["op", slot|None, opname, [arg...], {kw: arg}]     arg ::= {"s": slot} | literal
+       | ["op", slot|None, opname, [arg...], {kw: arg}]     arg ::= {"s": slot} | {"item": [slot, key]} | literal
        | ["probe", tag, opname, [arg...], {kw: arg}]
        | ["set", key, val] | ["get", key] | ["sd", module, [[k, val]...]]
        | ["with", [[key, val]...], [step...]] | ["reset"] | ["matlab"] | ["fbs"] | ["legacy", ver]
@@ -306,6 +306,22 @@ def _idents(items):
     return ",".join("%s:%x" % (k, id(x)) for k, x in items if _mutable(x))
 
 
+# Problem objects of control.optimal keep working storage between calls *by design* (the initial
+# state and measurements of the current call, the last simulation, collocation values, the
+# constraint objects handed to SciPy, evaluation counters / timers).  These attributes are not part
+# of the observable state of the object; instead every call on such an object is compared with the
+# same call on a freshly built identical object (`Runner.twins`): whatever is kept between calls
+# must not influence what a call returns.
+_STAT = {"cost_evaluations", "cost_process_time", "constraint_evaluations", "constraint_process_time",
+         "eqconst_evaluations", "eqconst_process_time", "system_simulations"}
+WORKING = {
+    "OptimalControlProblem": _STAT | {"x", "last_x", "last_coeffs", "last_states", "colloc_vals", "constraints"},
+    "OptimalEstimationProblem": _STAT | {"x0", "u", "y", "inputs", "ctrl_idx", "dist_idx", "ndisturbances",
+                                         "colloc_vals", "constraints"},
+}
+STATEFUL_KINDS = ("ocp", "oep")
+
+
 def snap(obj):
     """attribute -> digest string (top level), for change reports.  Besides the value: for
     arrays where the memory is (address, strides, writeable flag, base object), for lists and
@@ -316,7 +332,9 @@ def snap(obj):
                                            "rw" if obj.flags.writeable else "ro",
                                            "own" if obj.base is None else "%x" % id(obj.base))}
     if hasattr(obj, "__dict__") and not callable(obj) or hasattr(obj, "ninputs"):
-        return {k: json.dumps(dg(x, 1), sort_keys=True) for k, x in vars(obj).items() if not k.startswith("_")}
+        skip = WORKING.get(type(obj).__name__, ())
+        return {k: json.dumps(dg(x, 1), sort_keys=True) for k, x in vars(obj).items()
+                if not k.startswith("_") and k not in skip}
     if isinstance(obj, (list, tuple)):
         return {"value": json.dumps(dg(obj), sort_keys=True), "elements": _idents(enumerate(obj))}
     if isinstance(obj, dict):
@@ -376,6 +394,89 @@ def _plot_and_close(f):
 
 def _op_point(r):
     return (r.states, r.inputs, r.outputs)
+
+
+def _quiet(f):
+    """the optimal-control functions print a summary by default"""
+    def g(*a, **k):
+        import contextlib
+        import io
+        with contextlib.redirect_stdout(io.StringIO()):
+            return f(*a, **k)
+    return g
+
+
+def _ocp_result(r):
+    """what the caller reads from an OptimalControlResult (the arrays themselves, so that a later
+    call that writes into an earlier result is seen); `r.problem` is the problem object itself"""
+    return {"time": r.time, "inputs": r.inputs, "states": r.states, "cost": float(r.cost),
+            "success": bool(r.success)}
+
+
+def _oep_result(r):
+    return {"time": r.time, "inputs": r.inputs, "states": r.states, "outputs": r.outputs,
+            "cost": float(r.cost), "success": bool(r.success)}
+
+
+def _opt():
+    import control.optimal as opt
+    return opt
+
+
+def _fs():
+    import control.flatsys as fs
+    return fs
+
+
+def split_num(v, nums, depth=0):
+    """structure of a result with the floating-point numbers taken out (appended to `nums`), for
+    comparisons with a tolerance (results of iterative optimisers)"""
+    if depth > 7:
+        return "<deep>"
+    if v is None or isinstance(v, (bool, str, np.bool_)):
+        return v if not isinstance(v, np.bool_) else bool(v)
+    if isinstance(v, (int, np.integer)):
+        return "i%d" % int(v)
+    if isinstance(v, (float, np.floating)):
+        nums.append(float(v))
+        return "f"
+    if isinstance(v, (complex, np.complexfloating)):
+        nums.extend([float(v.real), float(v.imag)])
+        return "c"
+    if isinstance(v, np.ndarray) and v.dtype.kind in "fc":
+        w = np.ascontiguousarray(v)
+        nums.extend(w.view(np.float64).reshape(-1).tolist() if w.dtype in (np.float64, np.complex128)
+                    else np.asarray(w, dtype=complex).view(np.float64).reshape(-1).tolist())
+        return "a:%s:%s" % (v.dtype.kind, "x".join(map(str, v.shape)))
+    if isinstance(v, (list, tuple)):
+        return [split_num(x, nums, depth + 1) for x in v]
+    if isinstance(v, dict):
+        return {str(k): split_num(x, nums, depth + 1) for k, x in sorted(v.items(), key=lambda kv: str(kv[0]))}
+    return dg(v, depth)
+
+
+TWIN_RTOL, TWIN_ATOL = 1e-7, 1e-9
+
+
+def close_values(v0, v1):
+    """'' when two outcomes ("ok", value) / ("exc", name) agree (numbers within the tolerance),
+    otherwise a description"""
+    if v0[0] != v1[0]:
+        return "%s -> %s" % (str(v0)[:200], str(v1)[:200])
+    if v0[0] == "exc":
+        return "" if v0[1] == v1[1] else "raises %s -> raises %s" % (v0[1], v1[1])
+    n0, n1 = [], []
+    s0, s1 = split_num(v0[1], n0), split_num(v1[1], n1)
+    if s0 != s1 or len(n0) != len(n1):
+        return "structure %s -> %s" % (json.dumps(s0)[:200], json.dumps(s1)[:200])
+    a0, a1 = np.array(n0, dtype=float), np.array(n1, dtype=float)
+    if a0.size and not np.allclose(a0, a1, rtol=TWIN_RTOL, atol=TWIN_ATOL, equal_nan=True):
+        with np.errstate(invalid="ignore"):
+            d = np.abs(a0 - a1)
+        j = int(np.nanargmax(np.where(np.isnan(d), np.inf, d)))
+        return "numbers differ by up to %.3g (%r -> %r) in %s" % (float(d[j]) if not np.isnan(d[j]) else float("nan"),
+                                                                  n0[j], n1[j], json.dumps(s0)[:160])
+    return ""
 
 
 def _nonlin(kind, c):
@@ -484,6 +585,26 @@ OPS = {
     "root_locus_map": lambda s, *a: ct.root_locus_map(s, *a),
     "gangof4_response": lambda P, C, *a, **kw: ct.gangof4_response(P, C, *a, **kw),
     "tfdata": lambda s: ct.tfdata(s), "ssdata": lambda s: ct.ssdata(s),
+    # the builtin sum() over systems (start value 0: `0 + sys` through __radd__)
+    "sum": lambda lst, *start: sum(lst, *start),
+    # the public in-place renaming method, applied by the *caller* to a result (see MUTATORS)
+    "update_names": lambda s, **kw: s.update_names(**kw),
+    # optimal control / estimation: problem objects with a call history, function forms
+    "ocp_compute_trajectory": _quiet(lambda o, x, **kw: _ocp_result(o.compute_trajectory(x, **kw))),
+    "ocp_compute_mpc": _quiet(lambda o, x, **kw: o.compute_mpc(x, **kw)),
+    "ocp_create_mpc_iosystem": lambda o, **kw: o.create_mpc_iosystem(**kw),
+    "solve_optimal_trajectory": _quiet(lambda s, T, *a, **kw: _ocp_result(_opt().solve_optimal_trajectory(s, T, *a, **kw))),
+    "create_mpc_iosystem": lambda s, T, *a, **kw: _opt().create_mpc_iosystem(s, T, *a, **kw),
+    "oep_compute_estimate": _quiet(lambda o, *a, **kw: _oep_result(o.compute_estimate(*a, **kw))),
+    "solve_optimal_estimate": _quiet(lambda s, T, *a, **kw: _oep_result(_opt().solve_optimal_estimate(s, T, *a, **kw))),
+    "cost_eval": lambda c, x, u: c(x, u),
+    # differentially flat systems
+    "point_to_point": lambda f, T, *a, **kw: _fs().point_to_point(f, T, *a, **kw),
+    "solve_flat_optimal": lambda f, T, *a, **kw: _fs().solve_flat_optimal(f, T, *a, **kw),
+    "traj_eval": lambda tr, T: tr.eval(T),
+    "traj_response": lambda tr, T, **kw: (lambda r: (r.time, r.outputs, r.states, r.inputs))(tr.response(T, **kw)),
+    "flat_forward": lambda f, x, u, params=None: f.forward(x, u, {} if params is None else params),
+    "flat_reverse": lambda f, z, params=None: f.reverse(z, {} if params is None else params),
     # plotting (Agg backend): the figures are summarised (line styles, labels) and closed
     "m_plot": _plot_and_close(lambda r, *fmt, **kw: r.plot(*fmt, **kw)),
     "time_response_plot": _plot_and_close(lambda r, *fmt, **kw: ct.time_response_plot(r, *fmt, **kw)),
@@ -499,6 +620,11 @@ OPS = {
     "root_locus_plot": _plot_and_close(lambda s, *a, **kw: ct.root_locus_plot(s, *a, **kw)),
     "singular_values_plot": _plot_and_close(lambda s, *a, **kw: ct.singular_values_plot(s, *a, **kw)),
 }
+
+# operations on a problem object that are repeated on a freshly built identical object
+TWIN_OPS = {"ocp_compute_trajectory", "ocp_compute_mpc", "oep_compute_estimate"}
+# documented in-place methods: the first argument is changed by design; everything else is not
+MUTATORS = {"update_names"}
 
 PLOT_OPS = {"bode_plot", "nyquist_plot", "pzmap_plot", "resp_plot", "nichols_plot", "root_locus_plot",
             "singular_values_plot", "m_plot", "time_response_plot", "gangof4_plot", "describing_function_plot",
@@ -581,6 +707,32 @@ def build(kind, spec, pool):
         if kind == "nld":
             return ct.nlsys(_nl_dyn_upd, _nl_dyn_out, params=params, **kw)
         return ct.nlsys(_nl2_upd, _nl2_out, params=params, **kw)
+    if kind == "cost":     # cost functions of control.optimal (closures over the caller's matrices)
+        opt = _opt()
+        if spec.get("fn") == "likelihood":
+            return opt.gaussian_likelihood_cost(R(spec["sys"]), *[R(x) for x in spec["args"]])
+        if spec.get("fn") == "prior":      # terminal ("arrival") cost of an estimation problem: (xhat0, x0)
+            P0 = np.array(R(spec["args"][0]), dtype=float)
+            return lambda xhat, x0: float((np.asarray(xhat) - np.asarray(x0).reshape(-1)) @ P0
+                                          @ (np.asarray(xhat) - np.asarray(x0).reshape(-1)))
+        return opt.quadratic_cost(R(spec["sys"]), *[R(x) for x in spec["args"]], **kw)
+    if kind == "constr":
+        opt = _opt()
+        fn = {"input_range": opt.input_range_constraint, "state_range": opt.state_range_constraint,
+              "output_range": opt.output_range_constraint, "input_poly": opt.input_poly_constraint,
+              "state_poly": opt.state_poly_constraint, "output_poly": opt.output_poly_constraint,
+              "disturbance_range": opt.disturbance_range_constraint}[spec["fn"]]
+        return fn(R(spec["sys"]), *[R(x) for x in spec["args"]])
+    if kind == "ocp":
+        return _opt().OptimalControlProblem(R(spec["sys"]), R(spec["timepts"]), R(spec["cost"]), **kw)
+    if kind == "oep":
+        return _opt().OptimalEstimationProblem(R(spec["sys"]), R(spec["timepts"]), R(spec["cost"]), **kw)
+    if kind == "flat":
+        return _fs().flatsys(ct.ss(*[R(x) for x in spec["abcd"]]), **kw)
+    if kind == "basis":
+        fs = _fs()
+        return {"poly": fs.PolyFamily, "bezier": fs.BezierFamily, "bspline": fs.BSplineFamily}[spec["fn"]](
+            *[R(x) for x in spec["args"]], **kw)
     if kind == "dict":
         return {k: R(x) for k, x in copy.deepcopy(spec["v"]).items()}
     if kind == "list":
@@ -601,6 +753,13 @@ def resolve(x, pool):
         if x["s"] not in pool:
             raise Missing(x["s"])
         return pool[x["s"]]
+    if isinstance(x, dict) and set(x.keys()) == {"item"}:      # an entry of a result the caller holds
+        if x["item"][0] not in pool:
+            raise Missing(x["item"][0])
+        try:
+            return pool[x["item"][0]][x["item"][1]]
+        except (KeyError, TypeError, IndexError):
+            raise Missing(x["item"][0])
     if isinstance(x, dict) and set(x.keys()) == {"cplx"}:      # complex literal
         return complex(x["cplx"][0], x["cplx"][1])
     if isinstance(x, dict) and set(x.keys()) == {"lst"}:      # list containing references
@@ -613,7 +772,7 @@ def resolve(x, pool):
 
 
 def is_ref(x):
-    return isinstance(x, dict) and set(x.keys()) == {"s"}
+    return isinstance(x, dict) and (set(x.keys()) == {"s"} or set(x.keys()) == {"item"})
 
 
 def arg_of(st, slot):
@@ -633,6 +792,8 @@ def slots_in(x, acc):
     if isinstance(x, dict):
         if set(x.keys()) == {"s"}:
             acc.append(x["s"])
+        elif set(x.keys()) == {"item"}:
+            acc.append(x["item"][0])
         else:
             for v in x.values():
                 slots_in(v, acc)
@@ -666,6 +827,7 @@ class Runner:
         self.probes = {}
         self.plots = False
         self.pool0 = self.state0 = None      # observation after the previous library call
+        self.twins = {}                      # slot of a problem object -> identical object that is never called
 
     def exec_cfg(self, st):
         k = st[0]
@@ -727,9 +889,19 @@ class Runner:
             finally:
                 used = slots_in(st, [])
                 pool1 = self.pool_snapshot()
+                # a documented in-place method changes its first argument by design; any *other*
+                # pool entry that changes with it is either that very object under another name (an
+                # earlier operation returned its operand instead of a new system) or shares state
+                target = st[3][0]["s"] if k == "op" and opname in MUTATORS and st[3] and is_ref(st[3][0]) \
+                    and "s" in st[3][0] else None
                 for m in self.pool_changes(pool0, pool1):
-                    self.rec["mut"].append(m + [opname, "operand" if m[0] in used else "bystander",
-                                                arg_of(st, m[0]) if m[0] in used else None])
+                    if m[0] == target:
+                        continue
+                    role = "operand" if m[0] in used else "bystander"
+                    if target is not None and target in self.pool:
+                        role = "same-object" if self.pool[m[0]] is self.pool[target] else "shares-state"
+                    self.rec["mut"].append(m + [opname, role, arg_of(st, m[0]) if m[0] in used else None]
+                                           + ([target] if target is not None else []))
                 cfg1 = state_snapshot()
                 if rc0 is not None:
                     cfg0 = dict(cfg0, **rc0)
@@ -790,6 +962,13 @@ class Runner:
                 outs.append(["res", "exc", type(e).__name__])
                 return
             self.pool[slot] = obj
+            if kind in STATEFUL_KINDS:
+                # an identical problem object (same arguments, same configuration) that is never
+                # called: calls on `obj` are repeated on deep copies of it
+                try:
+                    self.twins[slot] = build(kind, spec, self.pool)
+                except Exception:
+                    pass
             outs.append(["res", "obj", getattr(obj, "name", None), ctr0])
             return
         if k in ("op", "probe"):
@@ -814,6 +993,17 @@ class Runner:
                 r = None
                 val = ("exc", type(e).__name__)
             lit1 = self.literal_state(objs)
+            if opname in TWIN_OPS and args and is_ref(args[0]) and args[0].get("s") in self.twins:
+                # the same call (same argument objects) on a fresh copy of the never-called twin:
+                # the value returned must not depend on the calls made on the object before
+                try:
+                    tw = copy.deepcopy(self.twins[args[0]["s"]])
+                    v2 = ("ok", OPS[opname](tw, *a[1:], **kwr))
+                except Exception as e:
+                    v2 = ("exc", type(e).__name__)
+                d = close_values(("ok", r) if val[0] == "ok" else val, v2)
+                if d:
+                    self.rec["twin"].append([opname, d])
             if lit0 != lit1:
                 names = ["arg%d" % i for i in range(len(a))] + sorted(kwr)
                 for nm, x0, x1 in zip(names, lit0, lit1):
@@ -840,7 +1030,7 @@ class Runner:
         trace = []
         for st in hist:
             cfg0 = cfg_snapshot()
-            self.rec = {"mut": [], "libcfg": []}
+            self.rec = {"mut": [], "libcfg": [], "twin": []}
             is_cfg = st[0] in CFG_KINDS and st[0] != "with"
             pool0 = (self.pool0 if self.pool0 is not None else self.pool_snapshot()) if is_cfg else None
             outs = []
@@ -860,6 +1050,8 @@ class Runner:
                     self.rec["mut"].append(m + [st[0], "bystander", None])
                 self.pool0 = pool1
             rec = {"outs": outs, "diff": diff, "mut": self.rec["mut"], "libcfg": self.rec["libcfg"], "exc": exc}
+            if self.rec["twin"]:
+                rec["twin"] = self.rec["twin"]
             if gone:
                 rec["gone"] = gone
             trace.append(rec)
@@ -1085,7 +1277,15 @@ class C19(Family):
         "attributes, numpy's global random state, and around plotting calls matplotlib's rcParams; private "
         "caches (`_current_params`, `_ifunc`) are observed only through probes",
         "aliasing between a result and an argument that is never followed by a write is not a violation and is "
-        "not reported"]
+        "not reported; the one write the histories make themselves is the documented in-place method "
+        "update_names on a freshly produced result: if that changes an operand, the operation that produced the "
+        "result handed back its operand (or shares state with it) and is reported",
+        "problem objects of control.optimal (OptimalControlProblem, OptimalEstimationProblem) keep working "
+        "storage between calls by design (x, last_x / last_coeffs / last_states, u / y / x0, collocation values, "
+        "SciPy constraint objects, counters): these attributes are excluded from the snapshot of such an object; "
+        "instead every compute_trajectory / compute_mpc / compute_estimate call is repeated with the same argument "
+        "objects on a deep copy of an identical, never-called twin built at the same time, and the results must "
+        "agree (rtol 1e-7, atol 1e-9; they are bit-identical on the unchanged code)"]
     rule = ("random call histories (5-40 steps) over the public API on a pool of live arrays (plain, views of "
             "larger arrays, integer / column / Fortran-ordered), lists, dictionaries, StateSpace / TransferFunction / "
             "FRD / nonlinear systems, time and frequency responses, with configuration calls (set_defaults, item "
@@ -1094,7 +1294,15 @@ class C19(Family):
             "constraint forms, linearize, responses, interconnect, state feedback / estimator factories, "
             "identification) and on plotting calls (time responses with inputs and line keywords, Bode / Nyquist "
             "/ Nichols / singular values / pole-zero / root locus / describing function, figures summarised and "
-            "closed); parameter-protocol histories over an interconnected system with recording subsystems; a "
+            "closed); operators and block-diagram functions with scalars (incl. the identity elements 0 and 1), "
+            "arrays, linear and nonlinear systems as operands in either order, sum(), results renamed by the caller; "
+            "call histories on problem objects of control.optimal (several compute_trajectory / compute_estimate calls "
+            "on one object, warm starts taken from earlier results, MPC controllers, function forms on the same cost / "
+            "constraint objects) and flat-system trajectories; two sweeps enumerated on every run on randomly drawn "
+            "systems: every 'identity form' (0 + S, S * 1, sum([S]), parallel(0, S), series(S), ss(S), S ** 1 ...) on "
+            "SISO / MIMO StateSpace, TransferFunction, FRD, static and dynamic nonlinear systems, with naming keywords "
+            "in the call or the result renamed afterwards, and chains of calls on one problem object; "
+            "parameter-protocol histories over an interconnected system with recording subsystems; a "
             "case is non-trivial when it has >= 3 executed calls of >= 2 different kinds")
 
     _known = None
@@ -1146,10 +1354,21 @@ class C19(Family):
             if rec["mut"]:
                 # several objects may change in one call: report one that is not a listed finding
                 cands = []
-                for (s, okind, attr, v0, v1, opname, role, argn) in rec["mut"]:
+                for (s, okind, attr, v0, v1, opname, role, argn, *tgt) in rec["mut"]:
                     feat = {"kind": "operand-mutated", "op": opname, "attr": attr, "operand": okind}
                     if argn is not None and not re.fullmatch(r"arg\d+", argn):
                         feat["arg"] = argn          # keyword the object was passed under
+                    if role in ("same-object", "shares-state"):
+                        # the caller renamed a *result*; the operation that produced it is at fault
+                        prod = next((s2 for s2 in flat_steps(hist) if s2[0] == "op" and s2[1] == tgt[0]), None)
+                        feat = {"kind": "result-is-operand" if role == "same-object" else "result-shares-state",
+                                "op": prod[2] if prod else "?", "operand": okind, "attr": attr}
+                        cands.append((feat, "step %d: %s() on the result %r of %s also changed attribute %r of live %s %r "
+                                      "(%s): %s -> %s ; the operation returned %s ; producing step = %s"
+                                      % (idx, opname, tgt[0], feat["op"], attr, okind, s, role, v0, v1,
+                                         "its operand itself, not a new system" if role == "same-object"
+                                         else "a system that shares mutable state with it", json.dumps(prod)[:300])))
+                        continue
                     cands.append((feat, "step %d (%s) changed attribute %r of live %s %r (%s%s): %s -> %s ; step = %s"
                                   % (idx, opname, attr, okind, s, role, "" if argn is None else " " + argn, v0, v1,
                                      json.dumps(st)[:300])))
@@ -1163,6 +1382,14 @@ class C19(Family):
                 return Verdict(VIOLATES, "step %d: %s changed %s: %s -> %s ; step = %s"
                                % (idx, opname, where, v0, v1, json.dumps(st)[:300]),
                                {"kind": "config-changed", "op": opname, "key": key})
+            # 2b. a call on a problem object with a history returns what the same call returns on a
+            #     freshly built identical object
+            if rec.get("twin"):
+                opname, d = rec["twin"][0]
+                return Verdict(VIOLATES, "step %d: %s on an object with a call history does not return what the same "
+                               "call returns on a freshly built identical object (history -> fresh): %s ; step = %s"
+                               % (idx, opname, d, json.dumps(st)[:300]),
+                               {"kind": "history-dependent", "op": opname, "via": "fresh-twin"})
             # 3. generated and requested names of constructors; repeated probes
             outs_lib = [o for o in rec["outs"] if o[0] in ("res", "skip", "probe")]
             for s2, out in zip(lib, outs_lib):
@@ -1268,6 +1495,19 @@ class C19(Family):
         st["has_plot"] = any(s[0] in ("op", "probe") and s[2] in PLOT_OPS for s in steps)
         st["has_view_or_owned_container"] = any(s[0] == "new" and s[2] in ("view", "list", "dict") for s in steps)
         st["has_find_operating_point"] = any(s[0] in ("op", "probe") and s[2] == "find_operating_point" for s in steps)
+        ops = [s for s in steps if s[0] in ("op", "probe")]
+        st["has_problem_object_history"] = sum(1 for s in ops if s[2] in TWIN_OPS) >= 2
+        st["has_warm_start_from_earlier_result"] = any("item" in json.dumps(s[4].get("initial_guess", "")) for s in ops)
+        st["has_scalar_or_array_first_operand"] = any(
+            s[2] in ("series", "parallel", "append", "feedback", "add", "sub", "mul", "sum") and s[3]
+            and not isinstance(s[3][0], dict) and not isinstance(s[3][0], list) or
+            (s[2] in ("series", "parallel", "feedback", "add", "sub", "mul") and len(s[3]) > 1 and is_ref(s[3][0])
+             and str(s[3][0].get("s", "")).startswith(("a", "v"))) for s in ops)
+        st["has_identity_scalar_operand"] = any(
+            s[2] in ("series", "parallel", "add", "sub", "mul", "div", "sum", "feedback")
+            and any(isinstance(x, (int, float)) and not isinstance(x, bool) and x in (0, 1) for x in s[3][:3]) for s in ops)
+        st["has_result_renamed_by_caller"] = any(s[2] in MUTATORS for s in ops)
+        st["has_flat_system"] = any(s[0] == "new" and s[2] == "flat" for s in steps)
         st["has_probe_pair"] = any(r["outs"] and r["outs"][-1][0] == "probe" and r["outs"][-1][1] is not None
                                    for r in impl.get("trace", []))
         return st
